@@ -17,8 +17,24 @@ THOROUGH_SHARDS = 12
 
 
 def _affinity(g1, g2):
+    """Reference affinity of a pair (default buffers).  Where the statement of C06 gives a closed form -- two boxes: area
+    IoU; a time-only geometry with an interval / box / stamp: IoU of the (buffered) time extents -- it is computed
+    independently of the library; otherwise by a fresh call of the library's own function."""
     from soundevent.evaluation import affinity as A
 
+    from rv.props import c06
+
+    s1, s2 = geoms.to_spec(g1), geoms.to_spec(g2)
+    closed = ("TimeStamp", "TimeInterval", "BoundingBox")
+    if s1["type"] == "BoundingBox" and s2["type"] == "BoundingBox":
+        return c06._box_iou(s1["coordinates"], s2["coordinates"])
+    if s1["type"] in closed and s2["type"] in closed and (s1["type"] in geoms.TIME_ONLY or s2["type"] in geoms.TIME_ONLY):
+        def ext(s):
+            c = s["coordinates"]
+            if s["type"] == "TimeStamp":
+                return (max(c - 0.01, 0), c + 0.01)
+            return (c[0], c[1]) if s["type"] == "TimeInterval" else (c[0], c[2])
+        return c06._iou_1d(ext(s1), ext(s2))
     return instrument.original(A.compute_affinity)(g1, g2)
 
 
